@@ -230,8 +230,9 @@ def check_process_polygon(ctx, rep, rules=('S-fill', 'W-left', 'W-collapsed', 'W
             x = strip_upd(v)
             if x[0] == 'op' and x[1] == 'eq' and line_point(x[2]) and line_point(x[3]) and {line_point(x[2]), line_point(x[3])} == {'start', 'end'}:
                 conds['collapsed'] = c[1]
-            elif x[0] == 'op' and x[1] in ('lt', 'gt'):
-                conds['order'] = (x[1], x[2], x[3], c[1])
+            elif x[0] == 'op' and x[1] in ('lt', 'gt', 'le', 'ge'):
+                # the two events of a non-collapsed edge lie at different points, so their order is never Equal: <= is <
+                conds['order'] = ({'le': 'lt', 'ge': 'gt'}.get(x[1], x[1]), x[2], x[3], c[1])
         if 'collapsed' not in conds and filter_skips_collapsed(ctx, rep, p):
             conds['collapsed'] = False
         evs = new_events(p)
